@@ -105,6 +105,23 @@ def chan_seq(rep, flavours, programs, ops, caps, profiles, seed_off=0, label="ch
     return r
 
 
+def chan_sched(rep, flavours, runs, caps, shapes=("drain", "leave"), strategies=("random", "pct"), seed_off=0,
+               label="chan-sched"):
+    """Multi-thread scenarios under the cooperative scheduler (yield point at every instrumented atomic / lock)."""
+    wd = C.workdir()
+    out = os.path.join(wd, "%s_%d.ndjson" % (label, time.time_ns()))
+    st = C.run_fv(["chan-sched", "--flavours", ",".join(flavours), "--runs", runs, "--seed", rep.seed + seed_off,
+                   "--caps", ",".join(map(str, caps)), "--shapes", ",".join(shapes), "--strategies",
+                   ",".join(strategies), "--out", out], timeout=3000)
+    rep.extra.setdefault("driver_stats", []).append(dict(st, driver=label))
+    if st.get("stuck", 0) or st.get("step_limit", 0):
+        rep.inconclusive.append("%s: %d runs stuck in the OS, %d hit the step limit (not judged)" % (
+            label, st.get("stuck", 0), st.get("step_limit", 0)))
+    r = validate_chan(rep, out, label)
+    os.unlink(out)
+    return r
+
+
 def chan_mc(rep, tier):
     deps = ["ChanA.tla"]
     for k in ("q", "rv", "os"):
@@ -127,7 +144,18 @@ def n(tier, q, t):
 def C01(rep):
     chan_mc(rep, rep.tier)
     chan_seq(rep, ALL_CHAN, n(rep.tier, 24, 400), 60, [1, 2, 3, 5], ["mix", "batch", "async"], label="chan-seq")
+    chan_sched(rep, ALL_CHAN, n(rep.tier, 40, 1500), [1, 2], seed_off=11)
     rep.assumptions += CHAN_ASSUME
+
+
+def C05(rep):
+    chan_mc(rep, rep.tier)
+    sync = [f for f in ALL_CHAN if not f.endswith("_async") and f != "oneshot"]
+    chan_sched(rep, sync, n(rep.tier, 80, 3000), [1, 2, 3], seed_off=606, label="chan-sched-sync")
+    chan_sched(rep, sync, n(rep.tier, 40, 1500), [1], strategies=("pct5", "random"), seed_off=707,
+               label="chan-sched-cap1")
+    rep.assumptions += CHAN_ASSUME + [
+        "a blocked thread is one the scheduler finds parked with no unpark pending after a grace period; spurious unparks are legal and used only to wind a run down"]
 
 
 def C02(rep):
@@ -141,18 +169,21 @@ def C02(rep):
 def C03(rep):
     chan_mc(rep, rep.tier)
     chan_seq(rep, BOUNDED, n(rep.tier, 24, 400), 70, [1, 2, 3, 4], ["mix", "batch"], seed_off=202, label="chan-seq-bounded")
+    chan_sched(rep, BOUNDED, n(rep.tier, 40, 1500), [1, 2], shapes=("drain",), seed_off=22)
     rep.assumptions += CHAN_ASSUME
 
 
 def C04(rep):
     chan_mc(rep, rep.tier)
     chan_seq(rep, ALL_CHAN, n(rep.tier, 24, 400), 60, [1, 2, 5], ["close", "teardown"], seed_off=303, label="chan-seq-close")
+    chan_sched(rep, ALL_CHAN, n(rep.tier, 40, 1500), [1, 2], shapes=("leave", "drain"), seed_off=33)
     rep.assumptions += CHAN_ASSUME
 
 
 def C06(rep):
     chan_mc(rep, rep.tier)
     chan_seq(rep, ASYNC, n(rep.tier, 36, 600), 70, [1, 2, 3], ["async"], seed_off=404, label="chan-seq-async")
+    chan_sched(rep, ASYNC, n(rep.tier, 60, 2000), [1, 2], seed_off=44, label="chan-sched-async")
     rep.assumptions += CHAN_ASSUME
 
 
@@ -160,7 +191,8 @@ def C09(rep):
     chan_mc(rep, rep.tier)
     chan_seq(rep, ALL_CHAN, n(rep.tier, 24, 400), 50, [1, 2, 5], ["teardown", "batch", "async"], seed_off=505,
              label="chan-seq-teardown")
+    chan_sched(rep, ALL_CHAN, n(rep.tier, 30, 1000), [1, 2], shapes=("leave",), seed_off=55)
     rep.assumptions += CHAN_ASSUME
 
 
-RECIPES = {"C01": C01, "C02": C02, "C03": C03, "C04": C04, "C06": C06, "C09": C09}
+RECIPES = {"C01": C01, "C02": C02, "C03": C03, "C04": C04, "C05": C05, "C06": C06, "C09": C09}
